@@ -168,6 +168,53 @@ def run(prog, ctx):
               "learning range (%s, %s), user-range factor constant %s and re-applied shift constant %s are inconsistent "
               "(need shift == lower bound and factor == upper - lower)" % (lo, hi, fac, shift_c))
 
+    # fixed once used: after the learning scaling read an attribute (as an operand of the scaling, or through _internal_scaling, which
+    # reads all of them) no path stores that attribute again -- what stays stored is what the learning data was scaled with
+    ci_ = cfg_of(ini)
+    n_uses = 0
+    for attr in sorted(init_only):
+        use_nodes = []
+        for x in walk_local(ini.node):
+            if isinstance(x, ast.Attribute) and x.attr == attr and isinstance(x.ctx, ast.Load) and isinstance(x.value, ast.Name) and x.value.id == ini.self_name:
+                par = getattr(x, "_parent", None)
+                if isinstance(par, ast.Compare) and len(par.ops) == 1 and isinstance(par.ops[0], (ast.Is, ast.IsNot)) \
+                        and any(isinstance(c_, ast.Constant) and c_.value is None for c_ in [par.left] + par.comparators):
+                    continue                     # "was a range given?" is not a use of its value
+                use_nodes.append((ci_.node_containing(x), "`%s`" % src(R.stmt_of(x))[:70]))
+        for c_ in R.calls_in(ini.node, method="_internal_scaling"):
+            use_nodes.append((ci_.node_containing(c_), "`%s` (reads every learning-time scaling attribute)" % src(c_)[:60]))
+        n_uses += len(use_nodes)
+        aterm = ("a", ("n", ini.self_name), attr)
+        tmi_ = Terms(ini.node, max_depth=0)
+
+        def noneness(node):
+            """what the branch tests that govern this node say about `self.<attr> is None`"""
+            out = set()
+            for (g, _gn) in R.dominating_guards(ini, node, tmi_):
+                if g[0] == "cmp" and g[1] in ("Is", "IsNot") and {g[2], g[3]} == {aterm, ("c", "None")}:
+                    out.add(g[1] == "Is")
+            return out
+        all_stores = R.self_stores(ini, attr)
+        for s_ in all_stores:
+            sn = ci_.node_of(s_.stmt)
+            late = []
+            for (u, w) in use_nodes:
+                if u is None or sn is None or u is sn or sn.idx not in ci_.reachable_after(u):
+                    continue
+                # correlated branches: a use under `attr is not None` and a store under `attr is None` are never on one path, provided the
+                # attribute is not stored in between
+                nu, ns = noneness(u), noneness(sn)
+                between = [o for o in all_stores if o is not s_ and ci_.node_of(o.stmt) is not None
+                           and ci_.node_of(o.stmt).idx in ci_.reachable_after(u) and sn.idx in ci_.reachable_after(ci_.node_of(o.stmt))]
+                if not between and ((True in ns and False in nu) or (False in ns and True in nu)):
+                    continue
+                late.append(w)
+            ctx.check(not late, "C19.D2", R.key_of(ini, "fixed-once-used:%s:%s" % (attr, src(s_.stmt)[:40])), ini.loc(s_.stmt),
+                      "%s is not stored again after the learning scaling used it" % attr,
+                      "_initialize stores %s after %s already used it: later data is scaled with other values than the learning data"
+                      % (attr, late[0] if late else ""))
+    ctx.floor("C19.D2.uses", n_uses, 4, "uses of the learning-time scaling attributes in _initialize")
+
     # ------------------------------------------------------------------ D3
     clf = prog.func(CLS + "._classificate")
     ctx.touch(clf)
@@ -294,6 +341,52 @@ def run(prog, ctx):
         ctx.check(good, "C19.D5", R.key_of(td, "extend-only"), td.loc(s.stmt),
                   "earlier calculated classes are kept as the prefix of the new array",
                   "test_data overwrites the classes calculated for earlier data: `%s`" % src(s.stmt))
+
+    # the calculated classes and the stored testing data are two parallel sequences: wherever classes of _classificate(X) become /
+    # extend the calculated classes, X is (what is appended to) the testing data, and neither happens without the other
+    tdattr = ("a", ("n", "self"), "_testing_data")
+    npairs = 0
+    for fi in sorted(prog.cls(CLS).methods.values(), key=lambda f: f.qual):
+        sts_ = R.self_stores(fi, "_calculated_classes_testset")
+        if not sts_:
+            continue
+        tmx = Terms(fi.node, max_depth=0)
+        cx = cfg_of(fi)
+        for s_ in sts_:
+            if s_.value is None or (isinstance(s_.value, ast.Call) and isinstance(s_.value.func, ast.Attribute) and s_.value.func.attr == "array"
+                                    and not any(isinstance(y, ast.Call) and y is not s_.value for y in ast.walk(s_.value))):
+                continue                                             # the empty initial value
+            sn = cx.node_of(s_.stmt)
+            t = R.resolve_locals(fi, tmx.term(s_.value), sn, tmx) if sn is not None else tmx.term(s_.value)
+            cl_calls = [x for x in subterms(t) if x[0] == "call" and x[1][0] == "a" and x[1][2] == "_classificate" and x[2]]
+            if not cl_calls:
+                continue
+            npairs += 1
+            X = cl_calls[0][2][0]
+            extends = any(x == old for x in subterms(t))
+            if not extends:
+                ok = X == tdattr
+                why = "the classes of `%s` replace the calculated classes, but the stored testing data is self._testing_data" % show(X)
+            else:
+                ok = False
+                why = "the classes of `%s` are appended, but the testing data is not extended by the same samples in the same step" % show(X)
+                for s2 in R.self_stores(fi, "_testing_data"):
+                    n2 = cx.node_of(s2.stmt)
+                    if s2.value is None or n2 is None:
+                        continue
+                    t2 = R.resolve_locals(fi, tmx.term(s2.value), n2, tmx)
+                    app = t2[0] == "call" and t2[1][0] == "a" and t2[1][2] == "concatenate" and t2[1][1] == tdattr and t2[2] and t2[2][0] == X
+                    first, second = (n2, sn) if n2.idx in cx.reachable() and cx.dominates(n2, sn) else (sn, n2)
+                    together = cx.dominates(first, second) and cx.post_dominates(second, first)
+                    if app and together:
+                        ok = True
+                    elif app:
+                        why = "the testing data and the calculated classes are not extended on the same paths"
+                    elif t2[0] == "call" and t2[1][0] == "a" and t2[1][2] == "concatenate":
+                        why = "the classes of `%s` are appended to the calculated classes, but `%s` is appended to the testing data" % (show(X), show(t2[2][0]) if t2[2] else "?")
+            ctx.check(ok, "C19.D5", R.key_of(fi, "classes-paired-with-testing-data"), fi.loc(s_.stmt),
+                      "calculated classes and testing data are extended by the same samples in the same step", why)
+    ctx.floor("C19.D5.pairs", npairs, 2, "stores of calculated classes taken from _classificate")
 
     # ------------------------------------------------------------------ D7
     check_unlabelled_set_aside(prog, ctx)
